@@ -98,7 +98,7 @@ def _mask_stairs(self, other, inverse):
     full_mask_comparator = is_full_inverse_mask if inverse else float(0).__ne__
     if other._data is None:
         if full_mask_comparator(other.initial_value):
-            return sc.Stairs(initial_value=np.nan)
+            return sc.Stairs(initial_value=np.nan, closed=self.closed)
         else:
             return self.copy()
     return _maskify(other, inverse=inverse) + self
